@@ -1,7 +1,7 @@
 (* Judge for C06 (files of OCCURS DEPENDING ON records).
    case = (tree recfm lrecl envs counters records blocking image schema run)
      tree     abstract record description the generator built (wire form: JLayoutCommon)
-     recfm    0 = RECFM_N, 1 = RECFM_V, 2 = RECFM_VB
+     recfm    0 = RECFM_N, 1 = RECFM_V, 2 = RECFM_VB, 3 = RECFM_F (every record padded to lrecl bytes in the file)
      lrecl    (0) = None | (1 n): what the runner passed to COBOL_EBCDIC_File
      envs     one count vector ((counter-id value) ...) per record
      counters ((counter-id path) ...) where each live counter sits
@@ -151,8 +151,13 @@ Definition judge (c : sx) : sx :=
          | inr _ => false
          end) counters in
   let blocks := cut blocking rs in
+  let Lr := match lrecl with Some n => n | None => 0%nat end in
+  let chunks := cut (repeat Lr (length rs)) image in
   let image_ok :=
-    if recfm =? 0 then list_N_eqb image (write_N rs) && legal_N B rs
+    if recfm =? 3 then
+      (1 <=? Lr)%nat && (length image =? Lr * length rs)%nat
+      && forall2b (fun r ch => (length ch =? Lr)%nat && list_N_eqb (firstn (length r) ch) r) rs chunks
+    else if recfm =? 0 then list_N_eqb image (write_N rs) && legal_N B rs
     else if recfm =? 1 then list_N_eqb image (write_V rs) && legal_V rs
     else list_N_eqb image (write_VB blocks) && legal_VB blocks && (length (concat blocks) =? length rs)%nat in
   if negb (forall2b rec_valid es rs && image_ok) then L [A 9; A 0; L [A 0]] else
@@ -162,6 +167,7 @@ Definition judge (c : sx) : sx :=
     if recfm =? 0 then
       match rows_N dcount 0 lrecl js image with Ok (rows, f, _) => Ok (rows, f) | Err ex => Err ex end
     else if recfm =? 1 then rows_V dcount 0 lrecl js image
+    else if recfm =? 3 then rows_F dcount 0 lrecl js image
     else rows_VB dcount 0 lrecl js image in
   let obs_rows := as_list (nth_sx 1 run) in
   let obs_end := nth_sx 2 run in
@@ -170,7 +176,8 @@ Definition judge (c : sx) : sx :=
   let lens := map (@length N) rs in
   let total := length image in
   let want_buflens :=
-    if recfm =? 0 then map (fun off => Nat.min B (total - off)) (offsets 0 lens) else lens in
+    if recfm =? 0 then map (fun off => Nat.min B (total - off)) (offsets 0 lens)
+    else if recfm =? 3 then map (fun _ => Lr) lens else lens in
   let good :=
     (as_Z (nth_sx 0 run) =? 0)
     && sx_eqb obs_end (L [A 0])
